@@ -812,3 +812,122 @@ def round4_searches(ctx):
 
     for ob, k in bad.items():
         ctx.ob(ob, k == 0, "search", f"{k} failing inputs" if k else "")
+
+
+# ---------------------------------------------------------------------------
+# round-6: compositions of two operations (on_qubits, then invert / deep copy / dagger / on_qubits /
+# raw): every gate produced by on_qubits must be 'fresh' — what is rebuilt from it stays on ITS qubits
+
+COMP_SPEC = r'''
+def full_mapped(g, n, qmap):
+    """matrix of gate g moved by qmap, by explicit embedding of its local matrix (no on_qubits)."""
+    if isinstance(g, gates.FusedGate):
+        U = np.eye(2 ** n, dtype=complex)
+        for x in g.gates: U = full_mapped(x, n, qmap) @ U
+        return U
+    m = np.asarray(g.matrix(nb)); ts = [qmap[q] for q in (g.target_qubits if g.is_controlled_by else g.qubits)]
+    cs = [qmap[q] for q in g.control_qubits] if g.is_controlled_by else []
+    N = 2 ** n; U = np.zeros((N, N), complex)
+    for i in range(N):
+        bi = [(i >> (n - 1 - q)) & 1 for q in range(n)]
+        if not all(bi[c] for c in cs):
+            U[i, i] = 1; continue
+        li = int(''.join(str(bi[t]) for t in ts), 2)
+        for lj in range(2 ** len(ts)):
+            bj = list(bi)
+            for p, t in enumerate(ts): bj[t] = (lj >> (len(ts) - 1 - p)) & 1
+            U[i, int(''.join(map(str, bj)), 2)] = m[li, lj]
+    return U
+
+def unitary_of(c):
+    U = np.eye(2 ** c.nqubits, dtype=complex)
+    for g in c.queue:
+        if not isM(g): U = full(g, c.nqubits) @ U
+    return U
+
+def check_after_on_qubits(c, qubits, N):
+    qmap = dict(enumerate(qubits))
+    big = Circuit(N); big.add(c.on_qubits(*qubits))
+    exp = np.eye(2 ** N, dtype=complex)
+    for g in c.queue:
+        if not isM(g): exp = full_mapped(g, N, qmap) @ exp
+    if not np.allclose(unitary_of(big), exp, atol=1e-9):
+        return ("on_qubits:operator", f"on_qubits{tuple(qubits)} moves operators incorrectly")
+    for g in big.queue:
+        if isM(g): continue
+        if not np.allclose(full(g.dagger(), N), full(g, N).conj().T, atol=1e-9):
+            return ("on_qubits-then:dagger", f"dagger() of the gate returned by on_qubits{tuple(qubits)} ({type(g).__name__} on targets {g.target_qubits} controls {g.control_qubits}) is not its adjoint: the relabelled gate still carries the old qubit ids")
+    try:
+        if not np.allclose(unitary_of(big.invert()), exp.conj().T, atol=1e-9):
+            return ("on_qubits-then:invert", f"big.add(c.on_qubits{tuple(qubits)}); big.invert() is not the inverse of big")
+    except KeyError:
+        pass
+    if not np.allclose(unitary_of(big.copy(deep=True)), exp, atol=1e-9):
+        return ("on_qubits-then:deepcopy", f"deep copy of a circuit filled by on_qubits{tuple(qubits)} has another operator")
+    perm = list(range(N)); perm = perm[1:] + perm[:1]
+    b2 = Circuit(N); b2.add(big.on_qubits(*perm))
+    exp2 = np.eye(2 ** N, dtype=complex)
+    for g in c.queue:
+        if not isM(g): exp2 = full_mapped(g, N, {q: perm[qmap[q]] for q in qmap}) @ exp2
+    if not np.allclose(unitary_of(b2), exp2, atol=1e-9):
+        return ("on_qubits-then:on_qubits", "on_qubits after on_qubits is not the composed relabelling")
+    try:
+        if not np.allclose(unitary_of(b2.invert()), exp2.conj().T, atol=1e-9):
+            return ("on_qubits-then:on_qubits-invert", "invert after two on_qubits is not the inverse")
+    except KeyError:
+        pass
+    try:
+        back = Circuit.from_dict(big.raw)
+    except Exception:
+        back = None   # serialisation refusals belong to other checks
+    if back is not None and not np.allclose(unitary_of(back), exp, atol=1e-9):
+        return ("on_qubits-then:raw", "from_dict(raw) of a circuit filled by on_qubits has another operator")
+    return None
+'''
+
+
+def round6_searches(ctx):
+    rng = ctx.rng
+    code = compile(SPEC + HEAD + COMP_SPEC, "<C05 round-6 spec>", "exec")
+    bad = 0
+    keepers = ["H", "S", "T", "SX", "SWAP", "SDG", "TDG", "iSWAP", "FSWAP", "ECR", "fSim", "RXX", "GPI2", "Unitary"]
+    for it in range(40 if ctx.thorough else 16):
+        n = rng.randint(2, 4)
+        lines_ = [f"c = Circuit({n})"]
+        for i in range(rng.randint(1, 4)):
+            nm = rng.choice(keepers)
+            if rng.random() < 0.25:
+                lines_.append(circuit_src(rng, n, name="t", measurements=False).split("\n", 1)[1].replace("t.add", "c.add").replace("t_g", f"x{i}_g"))
+                continue
+            info = qgates.gate_infos()[nm] if nm != "Unitary" else None
+            k = info.nq if info else 1
+            if k >= n:
+                k, nm, info = 1, "H", qgates.gate_infos()["H"]
+            qs = rng.sample(range(n), k)
+            rest = [q for q in range(n) if q not in qs]
+            cs = rng.sample(rest, rng.randint(1, len(rest)))
+            if nm == "Unitary":
+                mk = f"gates.Unitary(np.array([[0.6, 0.8j], [0.8j, 0.6]]) @ np.diag([1, np.exp(0.7j)]), {qs[0]})"
+            else:
+                mk = f"gates.{nm}(*{qs}, *{[round(rng.uniform(0.2, 1.4), 3) for _ in range(info.np)]})"
+            lines_.append(f"c.add({mk}.controlled_by(*{cs}))")
+        src = "\n".join(lines_) + "\n"
+        N = rng.randint(n, 4)
+        mp = rng.sample(range(N), n)
+        if mp == list(range(n)):
+            mp = mp[::-1]
+        call = f"check_after_on_qubits(c, {mp}, {N})"
+        env = {}
+        exec(code, env)  # noqa: S102 - own text, identical to the replay
+        try:
+            exec(src + f"msg = {call}\n", env)  # noqa: S102
+            msg = env["msg"]
+        except Exception as e:  # noqa: BLE001 - an operation on a relabelled circuit raises
+            msg = ("on_qubits-then:raises", f"an operation on a circuit filled by on_qubits raises {type(e).__name__}: {e}")
+        ctx.stat("round6:compositions")
+        ctx.case(("round6", src, call))
+        if msg is not None:
+            bad += 1
+            ctx.fail(msg[0], msg[1], SPEC + HEAD + COMP_SPEC + src + f"try:\n    msg = {call}\nexcept Exception as e:\n    msg = repr(e)\nprint(msg)\nsys.exit(1 if msg else 0)\n",
+                     observed=msg[1][:300], broken=["C05_search_compositions"])
+    ctx.ob("C05_search_compositions", bad == 0, "search", f"{bad} failing inputs" if bad else "")
